@@ -33,6 +33,7 @@ type Obl struct {
 	InputsOK bool
 	ResultTerms []string
 	Cl          *Clause // the postcondition clause this obligation comes from (executable replay oracle)
+	DeclaredUnreachable bool // reach obligation of a return site the contract declares unreachable
 }
 
 type binding struct {
@@ -435,6 +436,11 @@ func (c *FnCtx) typeInvAl(al string, term string, t types.Type, depth int, sts .
 		}
 		return and(fs...)
 	case *types.Interface:
+		if n, ok := types.Unalias(t).(*types.Named); ok && n.Obj().Pkg() != nil && n.Obj().Pkg().Path() == "reflect" && n.Obj().Name() == "Type" {
+			// a reflect.Type is nil or the canonical box of its type id (reflect mini-model)
+			c.useReflect()
+			return or(eq(term, "inil"), eq(term, c.rtypeBox("(iint "+term+")")))
+		}
 		return or(eq(term, "inil"), and("((_ is ibox) "+term+")", "(>= (iref "+term+") 0)", or(eq("(iref "+term+")", "0"), sel(alloc(), "(iref "+term+")")),
 			or(eq("(sbase (isl "+term+"))", "0"), sel(alloc(), "(sbase (isl "+term+"))"))))
 	}
